@@ -712,3 +712,5 @@ def add_obligations(pack, tier, pid='C06'):
              (fn_tds.tds_init(pid),), (is_time(pid),), (model_switch_action(pid),), (system_switch_action(pid),),
              (toggle_u_switch(pid),), (fault_apply(pid),), (fault_clear(pid),), (alter_field(pid), None, replay_alter_field)]
     run_contracts(pack, items)
+
+replay_alter_field.real_system = True       # drives the real program on stock inputs: a crash inside repository code is a confirmed failure
